@@ -106,25 +106,25 @@ type builtFile struct {
 }
 
 type result struct {
-	Hook            bool                 `json:"hook"`
-	Files           map[string]fileInfo  `json:"files"`
-	ScriptsRun      int64                `json:"scripts_run"`
-	CallsRun        int64                `json:"calls_run"`
-	CallsChecked    int64                `json:"calls_checked"`
-	BytesChecked    int64                `json:"bytes_checked"`
-	GoroutineChecks int64                `json:"goroutine_checks"`
-	HangsUnconfirm  int64                `json:"hangs_unconfirmed"`
-	Failures        []failure            `json:"failures"`
-	Traces          []string             `json:"traces"`
-	CurStates       map[string]int64     `json:"cursor_states"` // calls made per (op, cursor state) label
-	ByConc          map[string]int64     `json:"by_conc"`
+	Hook            bool                `json:"hook"`
+	Files           map[string]fileInfo `json:"files"`
+	ScriptsRun      int64               `json:"scripts_run"`
+	CallsRun        int64               `json:"calls_run"`
+	CallsChecked    int64               `json:"calls_checked"`
+	BytesChecked    int64               `json:"bytes_checked"`
+	GoroutineChecks int64               `json:"goroutine_checks"`
+	HangsUnconfirm  int64               `json:"hangs_unconfirmed"`
+	Failures        []failure           `json:"failures"`
+	Traces          []string            `json:"traces"`
+	CurStates       map[string]int64    `json:"cursor_states"` // calls made per (op, cursor state) label
+	ByConc          map[string]int64    `json:"by_conc"`
 }
 
 type fileInfo struct {
 	Chunks   [][2]int64 `json:"chunks"`
 	Explicit []int      `json:"explicit"` // per chunk: bytes before its trailing (implicit) zeroes
-	CSize  int        `json:"csize"`
-	DSize  int        `json:"dsize"`
+	CSize    int        `json:"csize"`
+	DSize    int        `json:"dsize"`
 }
 
 func mix(a, b, c, d uint64) uint64 {
@@ -642,6 +642,9 @@ func runConcurrentOnce(bf *builtFile, s script, conc int, seed uint64, perturb b
 		}
 		orp := doCall(or, bf, c, &obuf)
 		oracle = append(oracle, orp)
+		if c[0] == 3 {
+			closedOK = true
+		}
 		if c[3] != 0 {
 			out.checked++
 			if c[0] == 0 {
@@ -664,9 +667,6 @@ func runConcurrentOnce(bf *builtFile, s script, conc int, seed uint64, perturb b
 				}
 			}
 		}
-		if c[0] == 3 {
-			closedOK = true
-		}
 	}
 	if !closedOK {
 		// the script was cut short by a failure: let the client goroutine release the
@@ -674,7 +674,10 @@ func runConcurrentOnce(bf *builtFile, s script, conc int, seed uint64, perturb b
 		ctl <- 1
 		select {
 		case <-ch:
-		case <-time.After(budget):
+		case <-time.After(4 * budget):
+			for id := range racGoroutines(allStacks()) {
+				staleIDs[id] = true
+			}
 		}
 		return out
 	}
